@@ -3673,6 +3673,8 @@ FROM (
 
         cols: List[str] = [f"t.{quote_name(n)}" for n in id_names]
         cols.append(f'{bool_ref} AS "bool_var"')
+        # The viral attributes of the validated operand are part of the result structure
+        cols.extend(f"t.{quote_name(v)}" for v in ds.get_viral_attributes_names())
 
         imbalance_sql: Optional[str] = None
         join_cond: Optional[str] = None
